@@ -172,8 +172,11 @@ def _gen(rng):
     tree = ctg.ContractionTree.from_path(inputs, out, sd, ssa_path=random_tree_ssa(n, rng))
     if rng.random() < 0.5:
         tree.sort_contraction_indices()
+    if rng.random() < 0.3 and tree.size_dict:
+        tree.remove_ind_(rng.choice(sorted(tree.size_dict)))
     node = rng.choice(list(tree.children))
     return {"self": tree, "args": (node,), "describe": f"inputs={inputs} output={out} node={sorted(node)}"}
 
 
 get_einsum_eq.gen = _gen
+get_einsum_eq.pre_must_hold = True  # inputs are real trees built through the public API
